@@ -10,6 +10,7 @@ import copy
 
 from .. import envmode
 from ..kernel import Violation, Discard, DrawCap, feq, canon, cjson
+from ..kernel import quiet_print as _quiet_print
 from ..gen import gen_seq, seq_class_of, AA, gen_special, gen_two_digit_counts, concat_collision, same_classes_other_letters
 from ..clock import SimClock, MODES
 from ..rng import RngModule, MTRandom, TapeRandom, UniformDriver, ListDriver
@@ -283,7 +284,7 @@ def execute(plan, ctx):
         class SequenceException(Exception):
             pass
     envmode.apply(plan.get("env"), ctx)
-    spmod.print = lambda *a, **k: None
+    spmod.print = _quiet_print
     clock = SimClock(ctx, ctx.streams.stream("clock"), plan.get("clock_mode", "normal"))
     mode = plan.get("rng_mode", "tape")
     tape_rnd = ctx.streams.stream("tape")
